@@ -86,6 +86,7 @@ class FunctionReport:
         self.solver_time = 0.0
         self.errors = []
         self.source = None         # dict(file, sha256, lines)
+        self.second = dict(asked=0, unsat=0, unknown=0, sat=0)
         self.dropped = set()
 
     def as_dict(self):
@@ -93,7 +94,7 @@ class FunctionReport:
                     obligations=[o.as_dict() for o in self.obligations],
                     unsupported=self.unsupported, covers=self.covers, canaries=self.canaries,
                     assumptions=sorted(self.assumptions), solver_time=round(self.solver_time, 3),
-                    errors=self.errors, source=self.source, dropped=sorted(self.dropped),
+                    errors=self.errors, source=self.source, dropped=sorted(self.dropped), second=self.second,
                     effects_seen=sorted(self.effects_seen))
 
 
@@ -302,6 +303,7 @@ class Engine:
         self.cur_func = None
         self.feas_timeout_ms = int(os.environ.get('PYVC_FEAS_TIMEOUT_MS', '2000'))
         self.mbqi_retry = False
+        self.second_opinion = int(os.environ.get('PYVC_SECOND_OPINION', '0') or 0)
 
     # ---------------------------------------------------------- path management
     def run_paths(self, body):
@@ -471,6 +473,13 @@ class Engine:
         neg = z3.Not(goal)
         r = s.check(neg)
         if r == z3.unsat:
+            if self.second_opinion and self.report.second['asked'] < self.second_opinion:
+                # thorough tier: independent second opinion from cvc5 on the same query
+                self.report.second['asked'] += 1
+                r2 = self._cvc5(neg, timeout_ms=3000)
+                self.report.second[r2 if r2 in ('sat', 'unsat') else 'unknown'] += 1
+                if r2 == 'sat':
+                    return 'disagreement', 'z3:unsat/cvc5:sat', None
             return 'unsat', 'z3', None
         if r == z3.sat:
             try:
@@ -505,7 +514,17 @@ class Engine:
             return 'sat', 'cvc5', {}
         return 'unknown', 'z3+cvc5', {'reason': s.reason_unknown()}
 
-    def _cvc5(self, extra):
+    def _cvc5(self, extra, timeout_ms=None):
+        global CVC5_TIMEOUT_MS
+        if timeout_ms is not None:
+            saved, CVC5_TIMEOUT_MS = CVC5_TIMEOUT_MS, timeout_ms
+            try:
+                return self._cvc5_run(extra)
+            finally:
+                CVC5_TIMEOUT_MS = saved
+        return self._cvc5_run(extra)
+
+    def _cvc5_run(self, extra):
         s2 = z3.Solver()
         for a in self.path.pc:
             s2.add(a)
@@ -1171,7 +1190,8 @@ class Engine:
             self.used('contract:' + f.qualname)
             return spec.apply(self, args, kwargs, node)
         if f.qualname not in self.inline and self.cur_func != f.qualname and \
-                not f.qualname.startswith((self.cur_func or '\0') + '.<locals>.'):
+                not f.qualname.startswith((self.cur_func or '\0') + '.<locals>.') and \
+                not any(f.qualname.startswith(px) for px in getattr(self, 'inline_prefixes', ())):
             raise Unsupported('call of %s which has neither contract nor inline permission' % f.qualname, node)
         return self.run_function(f, args, kwargs)
 
@@ -1496,6 +1516,23 @@ class Engine:
         else:
             src = None
         hook = self.hooks.get((fr.qualname, 'loop', n))
+        if hook is None and getattr(self, 'unroll_concrete', False) and kind == 'while':
+            # self-test only: a loop whose test is concretely decidable at every iteration is simply run
+            for _ in range(10000):
+                t = self.truth(self.eval(st.test, fr))
+                if not isinstance(t, bool):
+                    t = VBool(t).concrete()
+                if t is None:
+                    raise Unsupported('symbolic loop test in concrete mode', st)
+                if not t:
+                    return
+                try:
+                    self.block(st.body, fr)
+                except _Break:
+                    return
+                except _Continue:
+                    continue
+            raise Unsupported('concrete loop did not terminate', st)
         if hook is None:
             raise Unsupported('loop #%d of %s has no invariant' % (n, fr.qualname), st)
         hook(self, st, fr, kind, src)
